@@ -267,6 +267,9 @@ func (fc *FnCtx) safetyActive() bool {
 	if fc.contract == nil {
 		return true
 	}
+	if fc.lenient && len(fc.contract.Safety) == 0 {
+		return false // skeleton mode: arithmetic wraps, no bounds obligations unless the contract asks for them
+	}
 	if fc.prop == "" {
 		return true
 	}
@@ -404,6 +407,12 @@ func (fc *FnCtx) arith(st *State, op token.Token, a, b T, rt types.Type, bits in
 		}
 		if untyped {
 			return r
+		}
+		if fc.contract != nil && fc.contract.NoOverflow {
+			lo, hi := typeRange(bits, signed)
+			fc.assume(st, and(le(mkBig(lo), r), le(r, mkBig(hi))))
+			fc.assumptions["integer counters of this function do not overflow (contract says nooverflow)"] = true
+			return fc.define(r, "n")
 		}
 		if !signed || fc.wrap || (!fc.safetyActive() && fc.lenient) {
 			return fc.define(fc.wrapAddSub(r, bits, signed), "w")
